@@ -103,7 +103,8 @@ def run(tier, replay):
     import catalogue
     import schemes as sch
     S = sch.Schemes()
-    parents = {chain[0][0]: base for base, chain in S.bkg_names().items()}
+    parents = {chain[0][0]: base for base, chain in S.bkg_names(port_only=True).items()}
+    port_only = set(S.tab["chains"].get("port_only", {}))
     pub = {n.split("+")[0]: n for n in catalogue.lis_background()}
     pairs = S.argument_collisions(sorted(parents), per_group=1 if tier != "thorough" else 3)
     rng = __import__("random").Random(ck.seed)
@@ -146,6 +147,8 @@ def run(tier, replay):
                              "generated in between: %s vs %s" % (parents[site[0]], parents[other[0]], pos, prim, r1["sig"][:120], r2["sig"][:120]),
                              {"jobs": [j for j in jobs if j.split()[1].startswith("c%d." % n_)]})
             for r_ in (r1, r2):
+                if r_["cls"] == "reference-rejects" and parents[site[0]] in port_only:
+                    continue      # no reference for the nuclides that exist only in the port: history independence alone is checked
                 if r_["cls"] not in ("agree", "y90-pair-deviation", "knife-edge-excluded"):
                     ck.violation("collision:%s:%s" % (parents[site[0]], r_["cls"]),
                                  "in the collision schedule the %s decay differs from the reference (%s): %s" % (parents[site[0]], r_["cls"], r_["detail"][:200]),
@@ -156,7 +159,7 @@ def run(tier, replay):
     rjobs = []
     for (l_, m_) in c02.cascade_jobs(S, rng, 1):
         rjobs += [l_, l_.replace(" " + m_["id"] + " ", " " + m_["id"] + "R ", 1) + " R"]
-    for base, chain in S.bkg_names().items():
+    for base, chain in S.bkg_names(port_only=True).items():
         k0 = chain[0][0]
         for (_e, p_) in S.witness_paths(k0):
             jid = "%s.w%d" % (base, len(rjobs))
